@@ -437,6 +437,7 @@ func (r *Resolver) ArenaResolveGraphQLResponse(ctx *Context, response *GraphQLRe
 		resp.ResponseWriteDuration = time.Since(responseWriteStart)
 		return resp, err
 	}
+	defer r.inboundRequestSingleFlight.Abandon(inflight) // a panicking leader must not leave its key registered
 
 	start := time.Now()
 	<-r.maxConcurrency
